@@ -542,6 +542,11 @@ pub enum Oracle {
 
 /// run; h1; run; h2; run  — every history with |h1| <= len1 and |h2| <= len2
 pub fn run_histories(l: &Layout, ops: &[Op], len1: usize, len2: usize, oracle: Oracle, tag: &str) -> HistOut {
+    run_histories_part(l, ops, len1, len2, oracle, tag, 0, 1)
+}
+
+/// evaluates the histories whose index is congruent to `part` modulo `parts` (to spread one layout over threads)
+pub fn run_histories_part(l: &Layout, ops: &[Op], len1: usize, len2: usize, oracle: Oracle, tag: &str, part: usize, parts: usize) -> HistOut {
     let mut out = HistOut { histories: 0, invocations: 0, skips: 0, skip_allowed_but_ran: 0, distinct: BTreeSet::new(), violations: vec![], sample: None };
     let seqs = |max: usize| -> Vec<Vec<Op>> {
         let mut v: Vec<Vec<Op>> = vec![vec![]];
@@ -567,6 +572,9 @@ pub fn run_histories(l: &Layout, ops: &[Op], len1: usize, len2: usize, oracle: O
         let h2list: Vec<Option<&Vec<Op>>> = if h2s.is_empty() { vec![None] } else { h2s.iter().map(Some).collect() };
         for h2 in h2list {
             case += 1;
+            if case % parts != part {
+                continue;
+            }
             static SEQ: AtomicU64 = AtomicU64::new(0);
             let root = scratch(&format!("{}-{}-{}-{}", tag, l.name, case, SEQ.fetch_add(1, Ordering::SeqCst)));
             let mut sc = materialise(l, &root);
@@ -683,22 +691,29 @@ fn merge(rep: &mut Report, outs: Vec<HistOut>) {
 pub fn check_c02(rep: &mut Report) {
     let ls: Vec<Layout> = layouts().into_iter().filter(|l| !["no-input", "same-command-text-same-output"].contains(&l.name)).collect();
     let thorough = rep.thorough();
-    // run; h; run with |h| <= 2 (quick: on four file layouts, |h| <= 1 on the others);
+    // run; h; run with |h| <= 2 (quick: on three file layouts, |h| <= 1 on the others);
     // chained run; h1; run; h2; run with |h1|,|h2| <= 1 everywhere; thorough: |h| <= 3 on three layouts
     let cheap = |l: &Layout| !l.projects.iter().any(|p| p.2.contains("cmd_stdout"));
     let mut jobs: Vec<(Layout, usize, usize)> = vec![];
     for l in &ls {
-        let deep = ["directory", "directory+extensions", "overlapping-resources", "file-path"].contains(&l.name);
+        let deep = ["directory", "directory+extensions", "overlapping-resources"].contains(&l.name);
         jobs.push((l.clone(), if thorough || (cheap(l) && deep) { 2 } else { 1 }, usize::MAX));
         jobs.push((l.clone(), 1, 1));
         if thorough && ["file-path", "directory+extensions"].contains(&l.name) {
             jobs.push((l.clone(), 3, usize::MAX));
         }
     }
-    let outs = crate::explore::par_map(&jobs, 16, |(l, a, b)| run_histories(l, &ops_for(l), *a, *b, Oracle::SkipOnlyWhenAllowed, "C02"));
+    let mut split: Vec<(Layout, usize, usize, usize, usize)> = vec![];
+    for (l, a, b) in &jobs {
+        let parts = if *a >= 2 { 12 } else { 2 };
+        for k in 0..parts {
+            split.push((l.clone(), *a, *b, k, parts));
+        }
+    }
+    let outs = crate::explore::par_map(&split, 16, |(l, a, b, k, n)| run_histories_part(l, &ops_for(l), *a, *b, Oracle::SkipOnlyWhenAllowed, "C02", *k, *n));
     merge(rep, outs);
     rep.set("exhaustive", json!(true));
-    rep.set("bounds", json!({"layouts": ls.iter().map(|l| l.name).collect::<Vec<_>>(), "operations": ops_for(&ls[1]).iter().map(|o| format!("{:?}", o)).collect::<Vec<_>>(), "histories": "run; h; run with |h|<=2 on four file layouts (all layouts thorough; 3 on two layouts thorough), |h|<=1 on the others; run; h1; run; h2; run with |h1|,|h2|<=1 everywhere"}));
+    rep.set("bounds", json!({"layouts": ls.iter().map(|l| l.name).collect::<Vec<_>>(), "operations": ops_for(&ls[1]).iter().map(|o| format!("{:?}", o)).collect::<Vec<_>>(), "histories": "run; h; run with |h|<=2 on three file layouts (all layouts thorough; 3 on two layouts thorough), |h|<=1 on the others; run; h1; run; h2; run with |h1|,|h2|<=1 everywhere"}));
     rep.set("rule", json!("states = distinct histories by their full decision log; transitions = invocations of the real runner"));
     rep.assumptions.push("mtimes are set explicitly by the harness, strictly increasing".into());
 }
